@@ -61,27 +61,45 @@ KF_MODES = ["kf-destroy-queued-add", "kf-delete-queued-add", "kf-notrans-delete-
             "kf-vpsc-static-cycle-leak", "kf-topology-endnode-visibility-assert"]
 KF_TIMEOUT = {"kf-cola-makefeasible-hang": 15}
 
-# Round-6 findings (clusters, routing options, the rest of the public API): each has a deterministic replay step in
-# harness/c15.cpp (script form, see `struct Script`) and the main class stays away from it.  They are NOT in the default plan
-# until the lead has decided between a `fix:` commit and a known_findings.json entry (a step that crashes without a matching
-# entry is a VIOLATION); C15_PENDING_KF=1 adds them, C15_CLUSTER_PENALTY=1 adds the class `router-hist-cp` (clusters WITH a
-# cluster-crossing penalty, referencing cluster boundaries), which needs kf-cluster-crossings-overflow to be settled first.
-KF_PENDING = ["kf-split-free-dst-null", "kf-split-notrans-assert", "kf-transform-pins-set-order",
-              "kf-cluster-polyline-nonvertex-assert", "kf-cluster-refs-deleted-shape", "kf-merge-junction-doc-delete",
-              "kf-cluster-crossings-overflow", "kf-orth-zero-segment-penalty-assert",
-              "kf-nudge-common-endpoint-same-conn-assert", "kf-zero-nudging-distance-junction-assert",
+# Round-6 findings (clusters, routing options, the rest of the public API).  Each has a deterministic replay step in
+# harness/c15.cpp (script form, see `struct Script`; any failing generated history can be replayed the same way:
+# C15_SCRIPT=<file with its router/op lines> harness --mode kf-script).
+# Repaired in /repo (fix: commits 1afe4db e53898e 93cb140 eb4b954 68076bb 66472ee): their replays are REGRESSION steps that must
+# pass, and the main class generates those op families again.
+REGRESSION_MODES = ["kf-split-free-dst-null", "kf-split-notrans-assert", "kf-transform-pins-set-order",
+                    "kf-cluster-crossings-overflow", "kf-nudge-common-endpoint-same-conn-assert",
+                    "kf-merge-junction-doc-delete"]
+# Open: a step joins the plan as soon as known_findings.json (maintained by the lead, read-only here) has a `known` entry whose
+# match.tag is the step's name — a crashing step without a matching entry would be a VIOLATION on the clean tree.
+# C15_PENDING_KF=1 forces them all in.  The class `router-hist-cp` (--mode router-cp: cluster boundaries referencing shape
+# vertices, polyline connectors paying a cluster-crossing penalty) joins with kf-cluster-branching-midvertex-assert, the one
+# defect it still meets (about 1 case in 1000), or with C15_CLUSTER_PENALTY=1.
+KF_PENDING = ["kf-cluster-polyline-nonvertex-assert", "kf-cluster-refs-deleted-shape",
+              "kf-orth-zero-segment-penalty-assert", "kf-zero-nudging-distance-junction-assert",
               "kf-merge-copied-end-pin-deleted", "kf-cluster-branching-midvertex-assert"]
+
+
+def _known_tags():
+    import json
+    try:
+        kf = json.load(open(os.path.join(os.path.dirname(__file__), "..", "..", "known_findings.json")))
+        items = kf if isinstance(kf, list) else kf.get("findings", [])
+        return set((e.get("match") or {}).get("tag") for e in items if e.get("property") == "C15" and e.get("status") == "known")
+    except Exception:
+        return set()
 
 
 def plan(tier, seed, searching):
     base = ["--seed", str(seed), "--tier", tier, "--scale", "8" if searching else "1"]
     steps = [dict(hargs=base + ["--mode", "router"], label="router", timeout=3000),
              dict(hargs=base + ["--mode", "libs"], label="libs", timeout=3000)]
-    if os.environ.get("C15_CLUSTER_PENALTY"):
+    known = _known_tags()
+    if os.environ.get("C15_CLUSTER_PENALTY") or "kf-cluster-branching-midvertex-assert" in known:
         steps.append(dict(hargs=base + ["--mode", "router-cp"], label="router-cp", timeout=3000))
     if os.environ.get("C15_SKIP_KF"):        # (debug) main classes only
         return steps
-    for m in KF_MODES + (KF_PENDING if os.environ.get("C15_PENDING_KF") else []):
+    pending = [m for m in KF_PENDING if os.environ.get("C15_PENDING_KF") or m in known]
+    for m in KF_MODES + REGRESSION_MODES + pending:
         steps.append(dict(hargs=["--mode", m], label=m, timeout=KF_TIMEOUT.get(m, 120)))
     return steps
 
